@@ -15,6 +15,9 @@ structure CaseCfg where
   keep : Option (List String)
   split : Bool
   t0 : Nat
+  nx : Bool := false    -- custom Config.Next: steps aside for DELETE and OPTIONS only
+  kh : Bool := false    -- custom Config.KeyHeader (the harness sends the key under that name)
+  kv : Bool := false    -- custom Config.KeyHeaderValidate: at least 36 characters
 
 structure ThrIn where
   method : Char
@@ -33,7 +36,7 @@ def parseCfg (s : String) : Except String CaseCfg := do
   let get (k : String) : Except String String :=
     match kv.find? (·.1 == k) with | some p => pure p.2 | none => throw s!"outside-domain: cfg key {k} missing"
   let st ← get "st"
-  unless st == "X" || st == "M" do throw "outside-domain: st"
+  unless st == "X" || st == "M" || st == "F" do throw "outside-domain: st"
   let some life := (← get "life").toNat? | throw "outside-domain: life"
   unless life ≥ 1 ∧ life ≤ 100000 do throw "outside-domain: life range"
   let keep ← (match (← get "keep") with
@@ -42,12 +45,18 @@ def parseCfg (s : String) : Except String CaseCfg := do
     | "m" => pure (some ["X-M", "Set-Cookie"])
     | "am" => pure (some ["x-a", "X-M", "X-C", "Set-Cookie"])
     | "e" => pure none      -- empty non-nil list: configDefault replaces it by nil
+    | "c" => pure (some ["Content-Type"])
+    | "ac" => pure (some ["X-A", "content-type"])
     | _ => throw "outside-domain: keep")
   let sp ← get "split"
   unless sp == "0" || sp == "1" do throw "outside-domain: split"
   let some t0 := (← get "t0").toNat? | throw "outside-domain: t0"
   unless t0 ≥ 1 do throw "outside-domain: t0"
-  pure { st := st, life := life, keep := keep, split := sp == "1", t0 := t0 }
+  let flag (k : String) : Except String Bool :=
+    match kv.find? (·.1 == k) with
+    | none => pure false
+    | some p => if p.2 == "0" then pure false else if p.2 == "1" then pure true else throw s!"outside-domain: {k}"
+  pure { st := st, life := life, keep := keep, split := sp == "1", t0 := t0, nx := ← flag "nx", kh := ← flag "kh", kv := ← flag "kv" }
 
 def parseThreads (s : String) : Except String (Array ThrIn) := do
   if s == "-" then return #[]
@@ -63,7 +72,7 @@ def parseThreads (s : String) : Except String (Array ThrIn) := do
       unless st ≥ 200 ∧ st ≤ 599 do throw "outside-domain: status range"
       unless b == "0" || b == "1" do throw "outside-domain: body"
       let some h := h.toNat? | throw "outside-domain: hdrs"
-      unless h ≤ 4 do throw "outside-domain: hdrs range"
+      unless h ≤ 6 do throw "outside-domain: hdrs range"
       unless e == "0" || e == "1" do throw "outside-domain: err"
       out := out.push { method := mc, key := kc, status := st, body := b == "1", hdrs := h, err := e == "1" }
     | _ => throw "outside-domain: thread syntax"
@@ -78,17 +87,23 @@ def ownResp (i : ThrIn) (t : Nat) : Resp :=
     | 2 => [("X-M", "m1-" ++ v), ("X-M", "m2-" ++ v)]
     | 3 => [("X-C", "a" ++ v ++ ",b, c"), ("X-A", "")]
     | 4 => [("Set-Cookie", "s=" ++ v ++ "; Path=/"), ("Set-Cookie", "u=1,2; Path=/"), ("X-A", "w" ++ v)]
+    | 5 => [("Content-Type", "application/x-custom"), ("X-A", "t" ++ v)]
+    | 6 => [("Content-Type", "application/json; charset=utf-8")]
     | _ => []
   { status := i.status, body := if i.body then "body" ++ v else "", hdrs := hdrs }
 
-def watched : List String := ["X-A", "X-M", "X-C", "Set-Cookie"]
+def watched : List String := ["X-A", "X-M", "X-C", "Set-Cookie", "Content-Type"]
 
 /-- Config.Next (safe method) comes first, then the empty key, then KeyHeaderValidate (`!` too short,
 `?` too long) -/
-def reqOf (i : ThrIn) (t : Nat) : Req :=
-  if "GHOT".contains i.method || i.key == '-' then { key := none, invalid := false, fails := i.err, resp := ownResp i t }
-  else if i.key == '!' || i.key == '?' then { key := none, invalid := true, fails := i.err, resp := ownResp i t }
-  else { key := some i.key.toNat, invalid := false, fails := i.err, resp := ownResp i t }
+def reqOf (cc : CaseCfg) (i : ThrIn) (t : Nat) : Req :=
+  -- Config.Next: default = fiber.IsMethodSafe; the harness' custom one = DELETE or OPTIONS
+  let next := if cc.nx then i.method == 'D' || i.method == 'O' else "GHOT".contains i.method
+  -- the value of the configured key header (the harness sends it under the configured name)
+  let key : Option Key := if i.key == '-' then none else some i.key.toNat
+  -- Config.KeyHeaderValidate: default = exactly 36 characters; the harness' custom one = at least 36
+  let valid := if cc.kv then i.key != '!' else i.key != '!' && i.key != '?'
+  Req.ofHttp next key valid i.err (ownResp i t)
 
 inductive HAct | start (t : Nat) | release (t : Nat) | fault (t : Nat) | corrupt (t : Nat) | tick (d : Nat)
 
@@ -105,20 +120,26 @@ def parseAct (n : Nat) (s : String) : Except String HAct := do
 
 /-! ### coarse execution -/
 
-def isYield (st : String) (pc : Pc) : Bool :=
-  match pc with
-  | .atHandler | .atHandlerB => true
-  | .atGet1 | .atLock | .atGet2 | .atSet | .atUnlock => st != "M"
-  | _ => false
-
 structure Ex where
   g : G
-  waitq : List Nat := []
+  waitq : List Nat := []     -- the requests inside `lock.mu.Lock()` (blocked), in arrival order
+
+/-- is request t parked at a yield point of the harness? `st=F` (fine): the three `verifYield` points of
+locker.go are yield points too: 'a' = pc `lockAcq` before the request has been let into `lock.mu.Lock()`
+(afterwards it is in `waitq`), 'u' = pc `unlockRelease`, 'd' = pc `unlockDec`. -/
+def isYield (st : String) (x : Ex) (t : Nat) : Bool :=
+  match (x.g.threads t).pc with
+  | .atHandler | .atHandlerB => true
+  | .atGet1 | .atLock | .atGet2 | .atSet | .atUnlock => st != "M"
+  | .lockAcq => st == "F" && !x.waitq.contains t
+  | .unlockRelease | .unlockDec => st == "F"
+  | _ => false
 
 def settle (life : Nat) (st : String) (n : Nat) : Nat → Ex → Ex
   | 0, x => x
   | fuel + 1, x =>
-    let newW := (List.range n).filter fun t => (x.g.threads t).pc == .lockAcq && !x.waitq.contains t
+    let newW := if st == "F" then [] else
+      (List.range n).filter fun t => (x.g.threads t).pc == .lockAcq && !x.waitq.contains t
     let x := { x with waitq := x.waitq ++ newW }
     -- the first waiter whose countedLock is free gets it
     match x.waitq.find? fun t => ((x.g.locks (x.g.threads t).lk).holder).isNone with
@@ -129,15 +150,15 @@ def settle (life : Nat) (st : String) (n : Nat) : Nat → Ex → Ex
     | none =>
       match (List.range n).find? fun t =>
           let pc := (x.g.threads t).pc
-          pc != .idle && pc != .done && pc != .leaked && pc != .lockAcq && !isYield st pc with
+          pc != .idle && pc != .done && pc != .leaked && pc != .lockAcq && !isYield st x t with
       | some t =>
         match stepThr life x.g t with
         | some g' => settle life st n fuel { x with g := g' }
         | none => x
       | none => x
 
-def posChar (pc : Pc) : Char :=
-  match pc with
+def posChar (st : String) (x : Ex) (t : Nat) : Char :=
+  match (x.g.threads t).pc with
   | .idle => '-'
   | .atGet1 | .atGet2 => 'G'
   | .atLock => 'L'
@@ -145,9 +166,12 @@ def posChar (pc : Pc) : Char :=
   | .atUnlock => 'U'
   | .atHandler | .atHandlerB => 'H'
   | .done | .leaked => 'D'
+  | .lockAcq => if isYield st x t then 'a' else 'B'
+  | .unlockRelease => if st == "F" then 'u' else 'B'
+  | .unlockDec => if st == "F" then 'd' else 'B'
   | _ => 'B'
 
-def positions (n : Nat) (g : G) : String := String.ofList ((List.range n).map fun t => posChar (g.threads t).pc)
+def positions (st : String) (n : Nat) (x : Ex) : String := String.ofList ((List.range n).map fun t => posChar st x t)
 
 def doAct (life : Nat) (st : String) (n : Nat) (x : Ex) : HAct → Except String Ex
   | .start t =>
@@ -157,7 +181,9 @@ def doAct (life : Nat) (st : String) (n : Nat) (x : Ex) : HAct → Except String
       | none => throw "start disabled"
     else throw "start of a started thread"
   | .release t =>
-    if isYield st (x.g.threads t).pc then
+    if isYield st x t then
+      -- released at yield point 'a': the request enters `lock.mu.Lock()` (behind those already waiting)
+      if (x.g.threads t).pc == .lockAcq then pure (settle life st n 300 { x with waitq := x.waitq ++ [t] }) else
       match stepThr life x.g t with
       | some g' => pure (settle life st n 300 { x with g := g' })
       | none => throw "release disabled"
@@ -200,7 +226,7 @@ def resultOf (ins : Array ThrIn) (t : Nat) (th : Thread) : String :=
   | .errGet1 => renderResp th.ran "Eget1" ⟨500, "", []⟩
   | .errLock => renderResp th.ran "Elock" ⟨500, "", []⟩
   | .errGet2 => renderResp th.ran "Eget2" ⟨500, "", []⟩
-  | .errSet => renderResp th.ran "Eset" ⟨500, "", (Spec.record none watched own).hdrs⟩
+  | .errSet => renderResp th.ran "Eset" ⟨500, "", (Spec.record none watched own).hdrs.filter (·.1 != "Content-Type")⟩
   | .errHandler => renderResp th.ran "Ehandler" ⟨i.status, "", []⟩
   | .own => renderResp th.ran "ok" answer
   | .replay _ => renderResp th.ran "ok" answer
@@ -245,7 +271,7 @@ def handleCase (f : List String) : Except String Verdict := do
     let acts ← (if actS == "-" then pure [] else (actS.splitOn ",").mapM (parseAct n))
     if acts.length > 5000 then throw "outside-domain: too many actions"
     let dflt : ThrIn := { method := 'G', key := '-', status := 200, body := false, hdrs := 0, err := false }
-    let reqF : Nat → Req := fun t => reqOf (ins.getD t dflt) t
+    let reqF : Nat → Req := fun t => reqOf cc (ins.getD t dflt) t
     -- model (if the implementation left the modelled behaviour the model cannot follow the actions: that is a
     -- correspondence failure, not a malformed case — the oracle below is still evaluated)
     let runModel : Except String String := do
@@ -253,7 +279,7 @@ def handleCase (f : List String) : Except String Verdict := do
       let mut poss : List String := []
       for a in acts do
         x ← doAct cc.life cc.st n x a
-        poss := positions n x.g :: poss
+        poss := positions cc.st n x :: poss
       let modelPos := if poss.isEmpty then "-" else ",".intercalate poss.reverse
       let modelRes := if n == 0 then "-" else
         ",".intercalate ((List.range n).map fun t => resultOf ins t (x.g.threads t))
@@ -300,14 +326,18 @@ def handleCase (f : List String) : Except String Verdict := do
       | .corrupt t => evs := .faulted t false :: evs
       for t in List.range n do
         let c := after.getD t '-'
-        if c == 'G' || c == 'L' || c == 'S' || c == 'U' || c == 'B' then
+        if c == 'G' || c == 'L' || c == 'S' || c == 'U' || c == 'B' || c == 'a' || c == 'u' || c == 'd' then
           if !touched.contains t then touched := t :: touched
+        -- a request is answered when it finishes, or already when its Storage.Get returned the record / an
+        -- error (from G straight to the deferred Unlock or to the end): the answer is written at that moment,
+        -- with st=F other requests can run while the deferred Unlock is still under way
         if c == 'D' && before.getD t '-' != 'D' then evs := .answered t :: evs
-        if (c == 'L' || c == 'B') && !passedLock.contains t then passedLock := t :: passedLock
+        else if before.getD t '-' == 'G' && c == 'U' then evs := .answered t :: evs
+        if (c == 'L' || c == 'B' || c == 'a') && !passedLock.contains t then passedLock := t :: passedLock
       -- who waits inside Lock.Lock, and who is between Lock.Lock returning and Lock.Unlock
       let inside := (List.range n).filter fun t' =>
         let c := after.getD t' '-'
-        c == 'S' || c == 'U' || (c == 'G' && passedLock.contains t') || leakers.contains t' ||
+        c == 'S' || c == 'U' || c == 'u' || (c == 'G' && passedLock.contains t') || leakers.contains t' ||
           (c == 'H' && (reqF t').key.isSome)
       for t in List.range n do
         if after.getD t '-' == 'B' then evs := .blocked t inside :: evs
@@ -327,9 +357,13 @@ def handleCase (f : List String) : Except String Verdict := do
     let blocked := iposs.any (·.contains 'B')
     let reexec := (List.range n).any fun t => (List.range n).any fun t' =>
       t < t' && (reqF t).key.isSome && (reqF t).key == (reqF t').key && (resL.getD t {}).ran && (resL.getD t' {}).ran
-    let tags := ["st" ++ cc.st] ++ (if replays then ["replay"] else []) ++ (if faults then ["fault"] else []) ++
+    let fineOverlap := iposs.any fun p => (p.toList.filter fun c => c == 'a' || c == 'u' || c == 'd').length ≥ 2
+    let tags := ["st" ++ cc.st] ++ (if fineOverlap then ["inside-memorylock-overlap"] else []) ++ (if replays then ["replay"] else []) ++ (if faults then ["fault"] else []) ++
       (if blocked then ["blocked"] else []) ++ (if reexec then ["reexec"] else []) ++
-      (if ufault then ["unlock-fault"] else []) ++
+      (if ufault then ["unlock-fault"] else []) ++ (if cc.nx then ["custom-next"] else []) ++
+      (if cc.kh then ["custom-keyheader"] else []) ++ (if cc.kv then ["custom-validate"] else []) ++
+      (if (List.range n).any fun t => let r := resL.getD t {}; !r.ran && r.cls == "ok" && (reqF t).key.isSome &&
+          r.resp.hdrs.any (fun h => h.1 == "Content-Type" && h.2 != Spec.defaultCT) then ["replay-content-type"] else []) ++
       (if replays || blocked then ["nt"] else [])
     pure { id := id, modelObs := modelObs, implObs := impl, spec := spec, known := known, tags := tags }
   | _ => throw s!"outside-domain: expected 5 fields, got {f.length}"
